@@ -4,6 +4,7 @@
 -/
 import EG.Lemmas.AdaptersExact
 namespace EG
+open Tgt
 
 /-- The composed transformation of a stack over a root with box `B`: accumulated clip region (in
 root coordinates), total shift, composed colour map. -/
@@ -102,7 +103,7 @@ theorem stack_run_default (B : Rect) (s : Stack) (calls : List Call) (h : ∀ c 
   exact stack_run_native B s calls h q
 
 /-- A point is touched by a write list iff some write names it. -/
-theorem lastWrite_eq_none_iff (ws : Writes) (p : Pt) : lastWrite ws p = none ↔ ∀ w ∈ ws, w.1 ≠ p := by
+theorem Tgt.lastWrite_eq_none_iff (ws : Writes) (p : Pt) : lastWrite ws p = none ↔ ∀ w ∈ ws, w.1 ≠ p := by
   induction ws with
   | nil => simp [lastWrite_nil]
   | cons w ws ih =>
@@ -121,5 +122,41 @@ theorem stack_inside (B : Rect) (s : Stack) (c : Call) (h : stackOk B s c) :
   · exact hG
   · rw [if_neg hG, lastWrite_eq_none_iff] at hs
     exact absurd rfl (hs w hw)
+
+end EG
+
+namespace EG
+open Tgt
+
+/-- The meaning of a call depends on the target's box only through `clear`, and there only
+through membership of the point. -/
+theorem Call.sem_box_irrelevant (T T' : Rect) (c : Call) (q : Pt) (hT : T.Ok) (hT' : T'.Ok)
+    (h : T.contains q = T'.contains q) : c.sem T q = c.sem T' q := by
+  cases c with
+  | clear col => rw [Call.sem_clear _ hT, Call.sem_clear _ hT', h]
+  | _ => rfl
+
+/-- `runNative` point-wise: inside the box the direct meaning of the history, nothing outside. -/
+theorem runNative_eq_runDirect (B : Rect) (calls : List Call) (q : Pt) :
+    runNative B calls q = if B.contains q = true then runDirect B calls q else none := by
+  unfold runNative runDirect
+  rw [PMap.empty_apply]
+  by_cases hB : B.contains q = true
+  · rw [if_pos hB]
+    have := lastWrite_flatMap_congr calls (Call.writesNative B) (Call.lowerNative B) (fun o => o)
+      (by intro x y; rfl) rfl q q
+      (by intro c _; unfold Call.writesNative; rw [lastWrite_clipWrites, if_pos hB])
+    exact this
+  · rw [if_neg hB]
+    have := lastWrite_flatMap_congr calls (Call.writesNative B) (Call.lowerNative B) (fun _ => none)
+      (by intro x y; rfl) rfl q q
+      (by intro c _; unfold Call.writesNative; rw [lastWrite_clipWrites, if_neg hB])
+    exact this
+
+theorem runDirect_box_irrelevant (T T' : Rect) (calls : List Call) (q : Pt) (hT : T.Ok) (hT' : T'.Ok)
+    (h : T.contains q = T'.contains q) : runDirect T calls q = runDirect T' calls q := by
+  unfold runDirect
+  exact lastWrite_flatMap_congr calls (Call.lowerNative T) (Call.lowerNative T') (fun o => o)
+    (by intro x y; rfl) rfl q q (by intro c _; exact Call.sem_box_irrelevant T T' c q hT hT' h)
 
 end EG
